@@ -1036,7 +1036,7 @@ class String2Key(Field):
         if self.specifier == String2KeyType.Iterated and self.count > len(hsalt + hpass):
             count = self.count
 
-        hcount = (count // len(hsalt + hpass))
+        hcount = (count // len(hsalt + hpass)) if len(hsalt + hpass) else 0
         hleft = count - (hcount * len(hsalt + hpass))
 
         hashdata = ((hsalt + hpass) * hcount) + (hsalt + hpass)[:hleft]
